@@ -30,6 +30,8 @@ def gen_random(rng, max_c=8):
             sblocks.append({'kind': 'counter', 'init': rng.randint(-2, 3)})
         else:
             sblocks.append({'kind': 'input', 'init': rng.choice([True, False, 0, 1, 2, None, 'a'])})
+        if rng.random() < 0.25:
+            sblocks[-1]['sink'] = rng.choice([['every'], ['out'], ['every', 'out']])
     primary = list(range(ns - nsec))
     secondary = list(range(ns - nsec, ns))
     nc = rng.randint(1, max_c)
